@@ -53,6 +53,7 @@ Proof.
   - apply nw_wsh, nw_norm. rewrite forallb_app, nw_cbs. exact Hok.
   - apply nw_wsh. simpl. apply nw_tl. exact Hok.
   - destruct (dcb s d); reflexivity.
+  - destruct (dcb s d); reflexivity.
 Qed.
 
 Lemma WSH_reach s : reachable_from step init s -> forall t, wsh (thr s t) = true.
@@ -100,6 +101,7 @@ Proof.
   all: try apply evok_norm.
   - apply evok_cbs. exact Hok.
   - simpl. apply evok_tl. exact Hok.
+  - destruct (dcb s d); reflexivity.
   - destruct (dcb s d); reflexivity.
 Qed.
 
